@@ -346,6 +346,22 @@ def _case(repo, it, S, spec):
         out.append(("export is repeatable", f"{desc}: the second export of the same collection differs from the first "
                     f"(exporting changed the collection): first differing row "
                     f"{[(a, b) for a, b in zip(texts[0], texts[1]) if a != b][:1]}", q_ac))
+    # the text must not depend on the hash seed of the process: the same models built and exported with every set iterated in the
+    # opposite order (an equally valid order) give the same rows
+    from ..interp import other_hash_seed
+    n += 1
+    try:
+        with other_hash_seed():
+            objs2 = [build(it, S, parent, m) for m in ms]
+            ac2 = mk_collection(it, [o for o, m in zip(objs2, ms) if m["kind"] == "gene"], [o for o, m in zip(objs2, ms) if m["kind"] == "fc"],
+                                sequence_name="chr1", parent_or_seq_chunk_parent=parent)
+            k, v = run(it, f, [], {"chromosome_relative_coordinates": chrom_mode}, ac2)
+            lines2 = [it.py_str(r) for r in it.iterate(v)] if k == "ok" else v
+    except Raised as ex:
+        k, lines2 = "raise", ex.exc_name
+    if k != "ok" or lines2 != texts[0]:
+        diff = [(a, b) for a, b in zip(texts[0], lines2) if a != b][:1] if k == "ok" else lines2
+        out.append(("export independent of the hash seed", f"{desc}: built and exported with every set iterated in the opposite order, the text differs: {diff}", q_ac))
     out += check_text(texts[0], [expected_rows(m, off) for m in ms], desc, q_ac)
     return n, out
 
